@@ -848,6 +848,8 @@ def run(ctx):
 
 
 def replay(obj):
+    if obj.get("kind") in ("no-failing-input-found", "correspondence") or obj.get("correspondence"):
+        return vlib.replay_correspondence(obj)
     r = obj.get("replay", obj)
     print(json.dumps(r, indent=1)[:3000])
     if "prql" in r:
